@@ -9,6 +9,23 @@ A case is {"n": workers, "mf": max_fails, "p0": first pid, "ticks": [{"sleep": [
 Python signal handlers, the watchdog thread and worker deaths are asynchronous to the loop; these are
 the points at which the fakes let them happen.  When the script is exhausted the next sleep() raises Stop.
 
+Startup windows.  An event may carry a trailing marker {"at": "start" | "poll" | "wait", "j": k}: it happens EARLIER
+than its home point, inside the startup window that precedes it -
+  home = sleep of the first tick : inside prepare_workers - in Process.start() of worker k ("start"), in the
+         is_alive() call of worker k's startup wait before it answers ("poll"), in the Event.wait() of that wait;
+  home = drain[k'] of a tick     : inside the ReloadOneAction.handle that ran since the previous empty() call - in
+         new_process.start(), in the is_alive() / Event.wait() of its startup wait ("j" is not looked at).
+Marked events are a prefix of their list, in the order in which the points occur; whatever was not delivered early
+(the window or the point did not occur - a wait whose process is already dead never calls Event.wait) is delivered
+at the home point.  Nothing between a startup window and the home point that follows it looks at the queue or at a
+worker, so for the statements (and for the model) early = at home - except that the is_alive() of a startup wait,
+like every is_alive(), reaps: ["dies", slot] is a death that is polled right away (Live -> Reaped).  The fake
+leaves the process a zombie when its startup poll is still to come (the code under test then reaps it itself) and
+reaps it at once otherwise (any poll outside the manager's loop - multiprocessing polls all children in every
+Process.start() / active_children()).  A "dies" listed in `alive` does not happen (no startup window there).
+A death always hits the process most recently started under the name worker-<slot>, whatever the manager's own
+list says.
+
 Optional "slow": k (k >= 2): a worker whose pid is a multiple of k needs longer than any finite timeout to exit
 after terminate(): it stays alive until somebody waits for it without a timeout (join()); join(timeout=x)
 returns with the process still alive.  Deaths carry an exit status (0 = clean return of the worker function,
@@ -79,6 +96,7 @@ class FProc:
         self.slot = int(name.split("-")[1])
         self.termed = False
         self.code = None
+        self.startup_polled = False     # the is_alive() of its startup wait has answered
 
     def start(self):
         assert self.state == "new"
@@ -92,7 +110,11 @@ class FProc:
         self.state = "live"
         W.procs[self.pid] = self
         W.all.append(self)
+        W.slot_proc[self.slot] = self
         eff("start", self.slot, self.pid)
+        if W.tick > 0:                  # a replacement: its window's events are the head of the next drain point
+            W.win = dict(proc=self, key=(W.tick, W.drain_idx))
+        early("start", self)
 
     def slow(self):
         return bool(W.slow) and self.pid % W.slow == 0
@@ -130,18 +152,28 @@ class FProc:
         return None if self.state in ("new", "live") else self.code
 
     def is_alive(self):
-        if sys._getframe(1).f_code.co_name == "start":   # not the call made by _wait_for_worker_startup
+        caller = sys._getframe(1).f_code.co_name
+        if caller == "start":           # the liveness scan / the shutdown branch
             k = W.alive_idx
             W.alive_idx += 1
             if W.cur is not None and k < len(W.cur["alive"]):
-                deliver(W.cur["alive"][k])
+                deliver([e for e in W.cur["alive"][k] if e[0] != "dies"])
+        elif caller == "_wait_for_worker_startup":
+            W.last_polled = self
+            early("poll", self)
         if self.state == "zombie":
             self.state = "reaped"
+        if caller == "_wait_for_worker_startup":
+            self.startup_polled = True
+            if self.state != "live":
+                W.wait_skipped.add(self.slot)
         return self.state == "live"
 
 
 class FEvent:
     def wait(self, timeout=None):
+        if W.last_polled is not None:   # the startup wait of the process whose is_alive() was just asked
+            early("wait", W.last_polled)
         return False
 
     def set(self):
@@ -213,7 +245,8 @@ class FQueue:
         k = W.drain_idx
         W.drain_idx += 1
         if W.cur is not None and k < len(W.cur["drain"]):
-            deliver(W.cur["drain"][k])
+            deliver(home((W.tick, k), W.cur["drain"][k]))
+        W.win = None
         return not self.items
 
     def close(self):
@@ -226,13 +259,57 @@ class FQueue:
         pass
 
 
-def deliver(evs):
+def marker(ev):
+    return ev[-1] if isinstance(ev[-1], dict) else None
+
+
+def early(at, proc):
+    """a point inside a startup window: deliver the leading marked events of the window's home list that are due"""
+    if W.tick == 0:                     # prepare_workers: home = the first sleep
+        if not W.script:
+            return
+        key, evs, here = (0, "sleep"), W.script[0]["sleep"], (at, proc.slot)
+    else:
+        if W.win is None or W.win["proc"] is not proc or W.cur is None:
+            return
+        t, k = W.win["key"]
+        if t != W.tick or k != W.drain_idx or k >= len(W.cur["drain"]):
+            return
+        key, evs, here = (t, k), W.cur["drain"][k], (at,)
+    i = W.early_done.get(key, 0)
+    while i < len(evs):
+        m = marker(evs[i])
+        if m is None:
+            break
+        want = (m.get("at"), m.get("j")) if W.tick == 0 else (m.get("at"),)
+        if want != here and not (m.get("at") == "wait" and W.tick == 0 and m.get("j") in W.wait_skipped):
+            break
+        W.early_done[key] = i = i + 1
+        W.early_n["prepare" if W.tick == 0 else "reload"] += 1
+        deliver([evs[i - 1]], early_point=at)
+
+
+def home(key, evs):
+    """the home point of a list: what its startup window did not deliver"""
+    return evs[W.early_done.get(key, 0):]
+
+
+def deliver(evs, early_point=None):
     S = real_signal
     for ev in evs:
-        if ev[0] == "die":
-            ws = W.mgr.workers
-            if ev[1] < len(ws) and ws[ev[1]].state == "live":
-                ws[ev[1]].die((0, 1, -9)[(ws[ev[1]].pid + W.tick) % 3])
+        if ev[0] in ("die", "dies"):
+            p = W.slot_proc.get(ev[1])
+            if p is None:
+                continue
+            if p.state == "live":
+                p.die((0, 1, -9)[(p.pid + W.tick) % 3])
+                W.deaths["startup-window" if early_point else "tick"] += 1
+            if ev[0] == "dies" and p.state == "zombie":
+                if p.startup_polled:
+                    p.state = "reaped"      # polled by somebody else
+                    W.polled["elsewhere"] += 1
+                else:
+                    W.polled["by-startup-wait"] += 1
         elif ev[0] == "hup":
             W.handlers[S.SIGHUP](S.SIGHUP, None)
         elif ev[0] == "int":
@@ -261,7 +338,8 @@ def fsleep(secs):
     W.tick += 1
     W.drain_idx = W.alive_idx = 0
     W.ticks.append([])
-    deliver(W.cur["sleep"])
+    W.win = None
+    deliver(home((0, "sleep"), W.cur["sleep"]) if W.tick == 1 else W.cur["sleep"])
 
 
 class FOs(types.ModuleType):
@@ -409,7 +487,10 @@ def run_case(c, opts):
     W.cur = None
     W.drain_idx = W.alive_idx = 0
     W.ticks = [[]]          # ticks[0] = prepare_workers
-    W.procs, W.all = {}, []
+    W.procs, W.all, W.slot_proc = {}, [], {}
+    W.win, W.last_polled, W.wait_skipped, W.early_done = None, None, set(), {}
+    W.early_n, W.deaths = dict(prepare=0, reload=0), {"startup-window": 0, "tick": 0}
+    W.polled = {"by-startup-wait": 0, "elsewhere": 0}
     W.next_pid = c["p0"]
     W.slow = c.get("slow") or 0
     W.handlers = {}
@@ -452,4 +533,5 @@ def run_case(c, opts):
                 qmax=W.qmax, full_puts=W.full_puts, unmodelled=W.unmodelled,
                 bounds=W.bounds, puts=W.puts, kills=W.kills, start_info=W.start_info,
                 handlers=sorted(int(k) for k in W.handlers),
+                early=W.early_n, deaths=W.deaths, polled=W.polled,
                 exitcodes=[[p.pid, p.code] for p in W.all if p.code is not None])
